@@ -196,6 +196,9 @@ func (eng *Engine) encodeFunc(fn *ssa.Function, ct *Contract) *FuncResult {
 	entry := &State{mem: newMem(), reach: "true"}
 	a.entry = entry
 	a.allocE = vc.compInit("alloc", SortInt)
+	a.predeclare()
+	vc.started = true
+	vc.curBlk = -1
 	vc.header = append(vc.header, "(assert (<= 1 |alloc@0|))")
 	// parameters
 	for _, p := range fn.Params {
@@ -242,6 +245,9 @@ func (eng *Engine) encodeFunc(fn *ssa.Function, ct *Contract) *FuncResult {
 	for ri, r := range a.returns {
 		if ct == nil {
 			break
+		}
+		if r.blk != nil {
+			vc.curBlk = r.blk.Index
 		}
 		env := a.baseEnv(r.st)
 		env.vars = a.paramVars()
